@@ -36,6 +36,11 @@ type Comp struct {
 	// BudgetAfter: after the last limit change an accepted memory_budget_percent change follows (to a value that
 	// does not bind): the limit the caches follow must still be the last max_cache_size
 	BudgetAfter bool `json:"budget_after,omitempty"`
+	// Bundled: a restart is pending from the start (an accepted change of proxy.listen), and every limit change
+	// comes in one document with two other settings that change too (cleanup_interval, logging.max_backups):
+	// every setting of an accepted document is delivered to its listeners, whatever else the document or the
+	// process state holds
+	Bundled bool `json:"bundled,omitempty"`
 }
 
 type CStep struct {
@@ -55,7 +60,7 @@ type ckey = cache.CacheKey
 func keyN(c, i int) ckey { return cache.FromString(fmt.Sprintf("c19-%d-%d", c, i)) }
 
 var subComp = ev.Register("components-follow-limit",
-	"2-4 caches (memory/file) subscribed to one configuration; a drawn sequence of accepted max_cache_size changes (alternating low/high, some back-to-back), memory_budget_percent changes (to values that do not bind) and cache shut-downs in any order; optionally two more budget changes after the last limit change; after the last change and a quiescence pause every surviving cache is probed through its store-triggered eviction: filled to between the low and the high limit, one more store must (low) or must not (high) evict; shutting caches down must not fail; non-trivial = a cache subscribed earlier was shut down before a later change, with survivors; distinct by (backends, step sequence)",
+	"2-4 caches (memory/file) subscribed to one configuration; a drawn sequence of accepted max_cache_size changes (alternating low/high, some back-to-back), memory_budget_percent changes (to values that do not bind) and cache shut-downs in any order; optionally two more budget changes after the last limit change; optionally with a restart pending and every limit change bundled with two other changing settings in one document; after the last change and a quiescence pause every surviving cache is probed through its store-triggered eviction: filled to between the low and the high limit, one more store must (low) or must not (high) evict; shutting caches down must not fail; non-trivial = a cache subscribed earlier was shut down before a later change, with survivors; distinct by (backends, step sequence)",
 	func(c Comp, o *ev.Obs) *ev.Failure {
 		dir, err := os.MkdirTemp("", "verif-c19-")
 		if err != nil {
@@ -94,6 +99,18 @@ var subComp = ev.Register("components-follow-limit",
 				}
 			}
 		}()
+		limitDoc := func(v, n int) map[string]any {
+			if !c.Bundled {
+				return map[string]any{"cache": map[string]any{"max_cache_size": fmt.Sprintf("%dB", v)}}
+			}
+			return map[string]any{"cache": map[string]any{"max_cache_size": fmt.Sprintf("%dB", v), "cleanup_interval": fmt.Sprintf("%dh", 2+n%20)}, "logging": map[string]any{"max_backups": 1 + n%50}}
+		}
+		if c.Bundled {
+			o.Class("bundled-with-restart-pending")
+			if _, err := config.UpdatePartialFromConfig(cfg, map[string]any{"proxy": map[string]any{"listen": ":19199"}}); err != nil {
+				return ev.Failf("comp.harness", "listen change rejected: %v", err)
+			}
+		}
 		cur := highLimit
 		budget := 50
 		earlyDestroy := false
@@ -125,7 +142,7 @@ var subComp = ev.Register("components-follow-limit",
 					} else {
 						cur = highLimit
 					}
-					if _, err := config.UpdatePartialFromConfig(cfg, map[string]any{"cache": map[string]any{"max_cache_size": fmt.Sprintf("%dB", cur)}}); err != nil {
+					if _, err := config.UpdatePartialFromConfig(cfg, limitDoc(cur, changes)); err != nil {
 						panic(fmt.Sprintf("accepted change rejected: %v", err))
 					}
 					changes++
@@ -151,7 +168,7 @@ var subComp = ev.Register("components-follow-limit",
 		// the last change is always an isolated one (back-to-back changes are the reorder finding's subject):
 		// if the configuration already has the wanted value, move away first, wait, then move back
 		set := func(v int) *ev.Failure {
-			if _, err := config.UpdatePartialFromConfig(cfg, map[string]any{"cache": map[string]any{"max_cache_size": fmt.Sprintf("%dB", v)}}); err != nil {
+			if _, err := config.UpdatePartialFromConfig(cfg, limitDoc(v, changes)); err != nil {
 				return ev.Failf("comp.harness", "%v", err)
 			}
 			changes++
@@ -250,6 +267,7 @@ func TestComponentsFollowLimit(t *testing.T) {
 		}
 		c.FinalUp = rapid.Bool().Draw(t, "final-up")
 		c.BudgetAfter = rapid.Bool().Draw(t, "budget-after")
+		c.Bundled = rapid.IntRange(0, 2).Draw(t, "bundled") == 0
 		return c
 	})
 }
